@@ -44,6 +44,7 @@ class Knobs:
         self.p_wildcard = 0.0
         self.p_forbidden = 0.0
         self.p_final_in_region = 0.5
+        self.p_overlap_names = 0.3  # per machine: sibling keys that are string prefixes of one another
         self.p_ctx = 0.0            # context-updating marker actions / context guards
         self.p_fail = 0.0           # actions that raise
         self.p_missing = 0.0        # actions with no implementation
@@ -73,7 +74,7 @@ PROFILES = {
 
 
 def knobs_for(profile: str) -> Knobs:
-    return Knobs(**PROFILES[profile])
+    return Knobs(**PROFILES.get(profile, {}))
 
 
 def node_at(cfg, path):
@@ -86,6 +87,7 @@ def node_at(cfg, path):
 def gen_tree(rng: random.Random, kn: Knobs):
     counter = [0]
     paths = []  # non-root state paths in document order (incl. history nodes)
+    overlap = rng.random() < kn.p_overlap_names
 
     def mk(depth, path, parent_parallel):
         counter[0] += 1
@@ -98,7 +100,14 @@ def gen_tree(rng: random.Random, kn: Knobs):
         par = rng.random() < kn.p_parallel
         n = rng.randint(1, kn.max_kids)
         kids = {}
-        keys = [f"s{my}_{i}" for i in range(n)]
+        if overlap and rng.random() < 0.7:
+            # keys that are string prefixes of their siblings (zone / zone2, r1 / r10): id-prefix tests
+            # must not confuse them with descendants
+            base = rng.choice(["z", "zone", "r1", "ab", "q"])
+            pool = [base, base + "2", base + "20", base + "x", base[:1] + "_" + base]
+            keys = rng.sample(pool, n)
+        else:
+            keys = [f"s{my}_{i}" for i in range(n)]
         for k in keys:
             paths.append(path + [k])
             kids[k] = mk(depth + 1, path + [k], par)
@@ -314,8 +323,91 @@ def decorate(rng: random.Random, kn: Knobs, cfg, paths):
     return sorted(feats)
 
 
+def gen_hist_directed(rng):
+    """directed C11 scenario: an owner (compound or parallel) with a history child, an outside state that
+    targets the history node, inner walks that leave regions in atomic / final / nested leaves"""
+    feats = set()
+
+    def leafset(tag, depth):
+        n = rng.randint(2, 3)
+        keys = [f"{tag}{i}" for i in range(n)]
+        kids = {}
+        for i, k in enumerate(keys):
+            if depth < 1 and rng.random() < 0.3:
+                sub_keys, sub = leafset(k + "_", depth + 1)
+                kids[k] = {"initial": sub_keys[0], "states": sub}
+            elif i == n - 1 and rng.random() < 0.5:
+                kids[k] = {"type": "final"}
+                feats.add("final")
+            else:
+                kids[k] = {}
+        return keys, kids
+
+    def region(tag):
+        keys, kids = leafset(tag, 0)
+        st = {"initial": keys[0], "states": kids}
+        return st
+
+    par = rng.random() < 0.6
+    deep = rng.random() < 0.6
+    hist = {"type": "history", "history": "deep" if deep else "shallow"}
+    if par:
+        regs = {f"r{i}": region(f"r{i}x") for i in range(rng.randint(2, 3))}
+        owner = {"type": "parallel", "states": {**regs, "h": hist}}
+        feats.add("history:" + hist["history"] + ":par")
+    else:
+        owner = region("c")
+        owner["states"]["h"] = hist
+        feats.add("history:" + hist["history"] + ":cmp")
+    cfg = {"id": "m", "initial": rng.choice(["o", "P"]), "states": {"o": {"on": {"BACK": "#m.P.h", "IN": "#m.P"}}, "P": owner}}
+    owner.setdefault("on", {})["OUT"] = "#m.o"
+    # default target sometimes
+    paths = []
+
+    def walk(n, path):
+        for k, c in (n.get("states") or {}).items():
+            paths.append(path + [k])
+            walk(c, path + [k])
+    walk(cfg, [])
+    inner = [p for p in paths if p[:1] == ["P"] and len(p) > 1 and node_at(cfg, p).get("type") != "history"]
+    if rng.random() < 0.3:
+        hist["target"] = _abs(rng.choice(inner))
+        feats.add("history:default")
+    # inner moves: events M0..M3 declared on leaves / regions, targets inside the same owner
+    evs = ["M0", "M1", "M2", "M3"]
+    for p in inner:
+        n = node_at(cfg, p)
+        if n.get("type") == "final":
+            continue
+        for ev in evs:
+            if rng.random() < 0.35:
+                sibs = [q for q in inner if q[:-1] == p[:-1] and q != p]
+                if sibs:
+                    n.setdefault("on", {})[ev] = {"target": _abs(rng.choice(sibs)), "actions": [f"tr:{'.'.join(p)}:{ev}:0"]}
+    for p in [[]] + paths:
+        n = node_at(cfg, p)
+        if n.get("type") == "history":
+            continue
+        tag = ".".join(p)
+        n["entry"] = [f"en:{tag}"]
+        n["exit"] = [f"ex:{tag}"]
+        for ev, t in list((n.get("on") or {}).items()):
+            if isinstance(t, str):
+                n["on"][ev] = {"target": t, "actions": [f"tr:{tag}:{ev}:0"]}
+    events = []
+    for _ in range(rng.randint(1, 3)):
+        events += [rng.choice(evs) for _ in range(rng.randint(0, 4))]
+        events += rng.choice([["OUT", "BACK"], ["OUT", "IN"], ["OUT", "BACK"], ["OUT", "M1", "BACK"]])
+    feats.add("target:history")
+    return cfg, events, sorted(feats)
+
+
 def gen_case(seed: int, profile: str = "core", idx: int = 0):
     rng = random.Random((seed << 20) ^ (idx * 7919 + 13))
+    if profile == "histdirected":
+        cfg, events, feats = gen_hist_directed(rng)
+        cfg["maxIterations"] = 25
+        return {"id": f"{profile}-{seed}-{idx}", "machine": cfg, "guards": {}, "events": events, "features": feats}
     kn = knobs_for(profile)
     cfg, paths = gen_tree(rng, kn)
     feats = decorate(rng, kn, cfg, paths)
